@@ -143,10 +143,19 @@ PROPS = {
     },
 }
 
+PROPS['C13'] = {
+    'explanation': 'Clause decided: adjacency. The identifier of a new element is requested (Identifier::between) between the two elements '
+                   'adjacent to the requested position - the (i-1)-th and the i-th of the walk over all keys, i clamped to the length '
+                   '(List::insert_index), the element before / after the given anchor (GList::insert_after / insert_before), '
+                   'idx-1 / idx (GList::insert) - and delete_index(i) names the i-th identifier. Positions are read off the iterator '
+                   'algebra (next / skip / nth / successor on one iterator, checked_sub / + / - on the index), not off the text.',
+    'decides': 'IDX-ADJ (5 functions), plus the read accessors the statement is observed through (ACC-PLAIN, LIST-READ)',
+    'not_decided': 'that the identifier obtained is strictly between the two bounds (C14: decision table and necessary clauses of '
+                   'between, density itself not decided), hence the behavioural "locally like a Vec" statement',
+}
+
 NOT_APPLICABLE = {
     'C01': 'convergence is order-insensitivity of compositions of apply over all causal schedules; no guard, flow or effect '
            'ordering of a single function is necessary for it, and commutation of MIR bodies is not statically decidable here '
            '(mechanisms it names are decided under C06, C08, C09, C15)',
-    'C13': 'pure index arithmetic over runtime lengths (ix.min(len), skip(ix-1), range().find): a value-level quantity with no '
-           'structural clause that is not a frozen source fragment',
 }
